@@ -34,13 +34,19 @@ pub fn shaped_patterns(rng: &mut Rng, which: usize) -> Vec<Vec<u8>> {
     let mut pats: Vec<Vec<u8>> = vec![];
     match which % 10 {
         0 | 1 | 2 => {
-            // one node with N children below a prefix of length 0..3
-            let n = *rng.pick(&[1usize, 2, 3, 4, 5, 6, 7, 8, 9, 126, 127, 128, 129, 130, 254, 255, 256]);
-            let plen = rng.below(4);
+            // one node with N children below a prefix. N sweeps systematically
+            // (by the global list index) over the values around every limit of
+            // the state encodings: chunks of 4 transitions, the sparse/dense
+            // switch at 127/128, the kind tags 254/255 and the full 256.
+            const FANOUT: [usize; 22] =
+                [1, 2, 3, 4, 5, 6, 7, 8, 9, 125, 126, 127, 128, 129, 130, 131, 252, 253, 254, 255, 256, 64];
+            let n = FANOUT[(which / 10 * 3 + which % 10) % FANOUT.len()];
+            let plen = if rng.chance(1, 6) { 0 } else { rng.range(1, 3) };
             let prefix = gen::rand_string(rng, b"abAB\x00\xff", plen);
             let first = rng.below(256);
+            let step = if rng.chance(1, 2) { 1 } else { 3 };
             for k in 0..n {
-                let b = ((first + k * if rng.chance(1, 2) { 1 } else { 3 }) % 256) as u8;
+                let b = ((first + k * step) % 256) as u8;
                 let mut p = prefix.clone();
                 p.push(b);
                 if rng.chance(1, 5) {
@@ -48,8 +54,8 @@ pub fn shaped_patterns(rng: &mut Rng, which: usize) -> Vec<Vec<u8>> {
                 }
                 pats.push(p);
             }
-            if rng.chance(1, 3) {
-                pats.push(prefix.clone()); // prefix itself is a match state
+            if rng.chance(2, 3) {
+                pats.push(prefix.clone()); // the wide node is itself a match state
             }
             if rng.chance(1, 4) {
                 // a suffix of the prefix, so failure links matter
@@ -386,7 +392,7 @@ pub fn run_c16(ctx: &Ctx, rep: &mut Report) {
     let mut root = Rng::new(ctx.seed).fork(0xC16 + ctx.shard as u64);
     for i in 0..n {
         let mut rng = root.fork(i as u64);
-        let pats = shaped_patterns(&mut rng, i);
+        let pats = shaped_patterns(&mut rng, i * ctx.nshards + ctx.shard);
         let alpha: Vec<u8> = {
             let mut a: Vec<u8> = pats.iter().flat_map(|p| p.iter().copied()).take(6).collect();
             a.push(b'a');
@@ -855,7 +861,7 @@ pub fn run_c04(ctx: &Ctx, rep: &mut Report) {
     let mut root = Rng::new(ctx.seed).fork(0xC04 + ctx.shard as u64);
     for i in 0..n {
         let mut rng = root.fork(i as u64);
-        let pats = shaped_patterns(&mut rng, i);
+        let pats = shaped_patterns(&mut rng, i * ctx.nshards + ctx.shard);
         let kind = Kind::ALL[i % 3];
         let ci = rng.chance(1, 4);
         let pre = rng.chance(1, 2);
